@@ -527,7 +527,7 @@ func (c *Ctx) build(t *Term) interface{} {
 		if c.SecretInts != 0 && !c.Public[-t.ID] {
 			return float64(7770+c.SecretInts) + 0.5
 		}
-		return float64(t.ID) + 0.5
+		return float64(t.ID) + 0.123456789 // (more digits than a float32 holds: 32-bit and 64-bit formatting of it differ)
 	case "string":
 		return string(c.Subst(t.B))
 	case "bytes":
